@@ -429,6 +429,22 @@ func (w *vfWorld) poolHasFamily(p *vfMPool, s *vfSvcReq, fam int, strict bool) b
 	return false
 }
 
+// poolGivesFamiliesOf: pool p has, right now, an available address of every family present in ips.
+// (For a PreferDualStack service the outcome may be one family or two; among pools able to give the
+// SAME outcome the better-ranked one has to be tried first.)
+func (w *vfWorld) poolGivesFamiliesOf(p *vfMPool, s *vfSvcReq, ips []string, strict bool) bool {
+	if len(ips) == 0 {
+		return false
+	}
+	for _, ip := range ips {
+		_, fam, ok := vfCanonIP(ip)
+		if !ok || !w.poolHasFamily(p, s, fam, strict) {
+			return false
+		}
+	}
+	return true
+}
+
 // poolSatisfies: pool p can serve the family policy of s right now.
 func (w *vfWorld) poolSatisfies(p *vfMPool, s *vfSvcReq, strict bool) bool {
 	if len(s.Families) == 1 {
